@@ -33,11 +33,15 @@ def main():
     sh("git checkout -q --detach $(git -C /repo rev-parse HEAD)", cwd=WT)
     os.makedirs(os.path.join(WT, "chess/tests"), exist_ok=True)
     shutil.copy(demo, os.path.join(WT, "chess/tests/seed_demo.rs"))
-    rc0, o0 = sh("cargo test --offline -p owlchess --test seed_demo 2>&1 | tail -5", cwd=WT)
+    head = "".join(open(demo).readlines()[:25])
+    rel = " --release" if "--release" in head else ""
+    feat = " --features verif" if "features verif" in head else ""
+    meta["demo_profile"] = "release" if rel else "debug"
+    rc0, o0 = sh(f"cargo test --offline -p owlchess{rel}{feat} --test seed_demo 2>&1 | tail -5", cwd=WT)
     clean_pass = "test result: ok" in o0
     rc, o = sh(f"git apply {os.path.abspath(patch)}", cwd=WT)
     applied = rc == 0
-    rc1, o1 = sh("cargo test --offline -p owlchess --test seed_demo 2>&1 | tail -5", cwd=WT)
+    rc1, o1 = sh(f"cargo test --offline -p owlchess{rel}{feat} --test seed_demo 2>&1 | tail -5", cwd=WT)
     mutant_fail = "test result: FAILED" in o1 or "error" in o1
     os.remove(os.path.join(WT, "chess/tests/seed_demo.rs"))
     rc2, o2 = sh("cargo test --workspace --offline 2>&1 | grep -E '^test result|FAILED|error(\\[|:)'", cwd=WT)
